@@ -295,6 +295,20 @@ pub fn oversize_cfgs() -> Vec<Cfg> {
     ]
 }
 
+/// Packets that cross 65536 words only through their padding, and compounds with such a member.
+pub fn oversize_padded_cfgs() -> Vec<Cfg> {
+    let fir = |n: u32| Fci::Fir((0..n).map(|i| (i, i as u8)).collect());
+    vec![
+        // the largest FIR list that fits (32766 entries, 262 140 bytes) plus padding
+        Cfg::Fb { kind: FbKind::Payload, sender: 1, media: 2, fci: fir(32_766), padding: 8 },
+        Cfg::Fb { kind: FbKind::Payload, sender: 1, media: 2, fci: fir(32_766), padding: 252 },
+        Cfg::Unknown { pt: 199, count: 0, data: vec![0x5a; 262_140], padding: 4 },
+        Cfg::App { ssrc: 1, subtype: 0, name: "big!".into(), data: vec![0x5a; 262_132], padding: 4 },
+        Cfg::Custom { pt: 207, min: 8, count: 1, body: vec![0x5a; 262_144], padding: 0 },
+        Cfg::Compound(vec![Cfg::Rr { ssrc: 2, blocks: vec![], padding: 0 }, Cfg::Unknown { pt: 199, count: 0, data: vec![0x5a; 262_144], padding: 0 }]),
+    ]
+}
+
 /// Deterministic sweeps + seeded random configurations.
 /// `all_paddings`: sweep every u8 padding (C16) rather than only the legal ones.
 pub fn workload(
@@ -591,6 +605,18 @@ fn sub_builder(
 }
 
 pub fn run_c06(ctx: &mut Ctx, shard: usize, nshards: usize) {
+    // configurations above 65536 words: as long as size calculation accepts them (open finding D13, which is C16's),
+    // "writing into any buffer of length >= n succeeds, returns n and never panics" is owed for them as well
+    if ctx.scale >= 0.5 {
+        let mut v = oversize_cfgs();
+        v.extend(oversize_padded_cfgs());
+        for (i, c) in v.iter().enumerate() {
+            if i % nshards == shard {
+                check_c06(ctx, c, hows(i));
+                ctx.class("c06:oversize(>65536 words)");
+            }
+        }
+    }
     workload(ctx, shard, nshards, 0xc06, false, 20_000, 600_000, &mut |ctx, c, h| check_c06(ctx, c, h));
 }
 pub fn floor_c06(ctx: &Ctx) -> Vec<(String, bool)> {
@@ -819,11 +845,11 @@ pub fn check_c16(ctx: &mut Ctx, cfg: &Cfg, how: How) {
 }
 
 fn limit_sweep(ctx: &mut Ctx, shard: usize, nshards: usize) {
-    let mut idx = 0usize;
-    let mut go = |ctx: &mut Ctx, c: Cfg| {
-        idx += 1;
-        if idx % nshards == shard {
-            check_c16(ctx, &c, hows(idx / nshards));
+    let idx = std::cell::Cell::new(0usize);
+    let go = |ctx: &mut Ctx, c: Cfg| {
+        idx.set(idx.get() + 1);
+        if idx.get() % nshards == shard {
+            check_c16(ctx, &c, hows(idx.get() / nshards));
         }
     };
     let rb = |cum: u32| Rb { ssrc: 1, fraction: 2, cumulative: cum, ext_seq: 3, jitter: 4, lsr: 5, dlsr: 6 };
@@ -878,8 +904,59 @@ fn limit_sweep(ctx: &mut Ctx, shard: usize, nshards: usize) {
             go(ctx, Cfg::Fb { kind: FbKind::Payload, sender: 1, media: 2, fci: Fci::Rpsi { pt, bits: vec![0xff; len], overrun: ign }, padding: 0 });
         }
     }
+    // magnitudes that alias a legal value in a narrower integer (count as u8 / u16, length as u8 / u16, 24-bit masks):
+    // a limit check done after such a conversion passes for them although it is crossed by far
+    for n in [255usize, 256, 257, 256 + 31, 288, 512, 512 + 7, 65_536, 65_537, 65_536 + 31, 65_568] {
+        // (the probing route sizes the builder after every call: quadratic, so the huge lists take the plain route)
+        let big = n > 600;
+        let goh = |ctx: &mut Ctx, c: Cfg| {
+            if big {
+                idx.set(idx.get() + 1);
+                if idx.get() % nshards == shard {
+                    check_c16(ctx, &c, How { owned: idx.get() / nshards % 2 == 1, wrap: false, probe: false });
+                }
+            } else {
+                go(ctx, c)
+            }
+        };
+        goh(ctx, Cfg::Sr { ssrc: 1, ntp: 0, rtp: 0, pc: 0, oc: 0, blocks: vec![rb(1); n], padding: 0 });
+        goh(ctx, Cfg::Rr { ssrc: 1, blocks: vec![rb(1); n], padding: 0 });
+        goh(ctx, Cfg::Bye { sources: (0..n as u32).collect(), reason: String::new(), padding: 0 });
+        goh(ctx, Cfg::Sdes { chunks: (0..n as u32).map(|i| Chunk { ssrc: i, items: vec![] }).collect(), padding: 0 });
+        goh(ctx, Cfg::Bye { sources: vec![1], reason: s(n), padding: 0 });
+        goh(ctx, Cfg::Sdes { chunks: vec![Chunk { ssrc: 1, items: vec![Item { type_: 1, prefix: vec![], value: s(n) }] }], padding: 0 });
+        goh(ctx, Cfg::Sdes { chunks: vec![Chunk { ssrc: 1, items: vec![Item { type_: 8, prefix: vec![0x62; n], value: s(0) }] }], padding: 0 });
+        goh(ctx, Cfg::Sdes { chunks: vec![Chunk { ssrc: 1, items: vec![Item { type_: 8, prefix: vec![0x62; n], value: s(3) }] }], padding: 0 });
+        goh(ctx, Cfg::Sdes { chunks: vec![Chunk { ssrc: 1, items: vec![Item { type_: 8, prefix: vec![0x62; 2], value: s(n) }] }], padding: 0 });
+        // an APP name whose length is 0..=4 modulo 256 / 65536
+        for k in [0usize, 1, 4] {
+            goh(ctx, Cfg::App { ssrc: 1, subtype: 0, name: s(n + k), data: vec![], padding: 0 });
+        }
+    }
+    for cum in [0x0100_0005u32, 0x0200_0000, 0x7fff_ffff, 0xff00_0000, 0xff80_0000, 0xffff_fffe] {
+        go(ctx, Cfg::Rr { ssrc: 1, blocks: vec![rb(cum)], padding: 0 });
+    }
+    for v in 32..=255u8 {
+        go(ctx, Cfg::App { ssrc: 1, subtype: v, name: "subt".into(), data: vec![], padding: 0 });
+        go(ctx, Cfg::Unknown { pt: 200 + (v % 50), count: v, data: vec![], padding: 0 });
+        if v >= 128 {
+            go(ctx, Cfg::Fb { kind: FbKind::Payload, sender: 1, media: 2, fci: Fci::Rpsi { pt: v, bits: vec![1, 2], overrun: 0 }, padding: 0 });
+        }
+        if v > 8 {
+            go(ctx, Cfg::Fb { kind: FbKind::Payload, sender: 1, media: 2, fci: Fci::Rpsi { pt: 5, bits: vec![1, 2, 3], overrun: v }, padding: 0 });
+        }
+    }
     // padding on a non-last compound member, at every position
     let m = |p: u8| Cfg::Rr { ssrc: 1, blocks: vec![], padding: p };
+    // ... of a long compound: the padded member at an index that is 0 or the last index modulo 256
+    for (n, pos) in [(257usize, 0usize), (257, 255), (257, 256), (300, 43), (513, 256), (256, 255), (256, 0)] {
+        let mut v: Vec<Cfg> = (0..n).map(|_| m(0)).collect();
+        v[pos] = m(8);
+        idx.set(idx.get() + 1);
+        if idx.get() % nshards == shard {
+            check_c16(ctx, &Cfg::Compound(v), How::default());
+        }
+    }
     for n in 1..=4usize {
         for pos in 0..n {
             for p in [4u8, 252, 3] {
